@@ -184,12 +184,7 @@ def run(ctx: Ctx):
     if fl is None:
         ctx.fail("R02.a", "c-printer::Float::repr", "C printer has no _print_Float of its own (sympy prints 15 significant digits)", "")
     else:
-        ft = util.text_of(ctx, fl)
-        if ft is None:
-            from sa import av as _avfl
-            fv_ = util.value_of(ctx, fl)
-            inner_ = fv_[3][0] if fv_[0] == "mcall" and fv_[2] == "_print" and fv_[3] else fv_
-            ft = _avfl.flatten(inner_).replace(_avfl.HO, "{").replace(_avfl.HC, "}") if _avfl._is_str(inner_) and not _avfl.has_unk(inner_) else None
+        ft = util.printed_text(ctx, fl)
         p0 = fl.params[1] if len(fl.params) > 1 else "flt"
         if ft is None:
             ctx.undecided("R02.a", "c-printer::Float::repr", "what _print_Float returns is not understood", fl.where())
